@@ -12,6 +12,7 @@ import DateutilVerif.Proofs.RenderGenD
 import DateutilVerif.Proofs.RenderGenE
 import DateutilVerif.Proofs.RenderCompactFrac
 import DateutilVerif.Proofs.RenderHmsFrac
+import DateutilVerif.Proofs.RenderCtimeOff
 namespace C02
 open PM Py PT
 
@@ -280,6 +281,20 @@ theorem parse_render_monthname (cls : Char → CClass) [AsciiOK cls] (yf : Bool)
               | _ => .naive,
             tokens := none } :=
   parse_mon cls yf year century o tznames tzi ho dflt hdv t ht f hf off hoff
+
+/-- **family 4b**: ctime followed by an offset, `Www Mmm dd HH:MM:SS YYYY <offset>` (year ≥ 100; nothing, or any offset spelling after a
+    space): the year's number swallows the space (a jump token) and the offset arm reads the rest — that datetime, aware with the
+    rendered offset -/
+theorem parse_render_ctime_offsets (cls : Char → CClass) [AsciiOK cls] (yf : Bool) (year century : Int) (o : Opts)
+    (tznames : List Token) (tzi : TzInfos) (ho : PlainOpts o tzi) (dflt : DT) (hdv : dflt.Valid) (t : DT) (ht : t.Valid)
+    (w : Nat) (hw : w < 7) (hy : 100 ≤ t.y) (off : Off) (hoff : off.Dom) (hsp : off.Spaced) :
+    parse cls (Info.default false yf year century) o tznames tzi dflt (renderCtimeOff w t off) =
+      .ok { dt := { t with us := 0 }, tz := if o.ignoretz then .naive else offDescr tznames off, tokens := none } :=
+  parse_ctimeOff cls yf year century o tznames tzi ho dflt hdv t ht w hw hy off hoff hsp
+
+example : parse asciiCls (Info.default false false 2024 2000) {} [] .absent ⟨2001, 1, 1, 0, 0, 0, 0⟩
+    (renderCtimeOff 3 ⟨2003, 9, 5, 10, 49, 41, 7⟩ (.hhmm true true 3 30)) =
+      .ok ⟨⟨2003, 9, 5, 10, 49, 41, 0⟩, .fixed none (-12600), none⟩ := by decide +kernel
 
 /-- **family 5**: `YYYY-MM-DD H:MM AM|PM`, every hour of the day (12 AM = 0, 12 PM = 12) through the
     source-translated `_adjust_ampm` -/
@@ -671,14 +686,14 @@ def TemplateThm (id : String) : Prop :=
     (∀ (cls : Char → CClass) [AsciiOK cls] (yf : Bool) (year century : Int) (o : Opts) (tznames : List Token) (tzi : TzInfos) (ho : PlainOpts o tzi) (t dflt : DT) (ht : t.Valid) (hdv : dflt.Valid) (off : Off) (hoff : off.Dom) (hsp : off.Spaced),
       parse cls (Info.default false yf year century) o tznames tzi dflt (renderHmsFrac true 6 t off) =
         .ok { dt := TimeFmt.expect (.frac true 6) t dflt, tz := if o.ignoretz then .naive else offDescr tznames off, tokens := none })
+  else if id = "ctime" then
+    (∀ (cls : Char → CClass) [AsciiOK cls] (yf : Bool) (year century : Int) (o : Opts) (tznames : List Token) (tzi : TzInfos) (ho : PlainOpts o tzi) (t dflt : DT) (ht : t.Valid) (hdv : dflt.Valid) (hy : 100 ≤ t.y) (off : Off) (hoff : off.Dom) (hsp : off.Spaced),
+      parse cls (Info.default false yf year century) o tznames tzi dflt (renderCtimeOff t.weekday.toNat t off) =
+        .ok { dt := { t with us := 0 }, tz := if o.ignoretz then .naive else offDescr tznames off, tokens := none })
   else if id = "rfc2822" then
     (∀ (cls : Char → CClass) [AsciiOK cls] (yf : Bool) (year century : Int) (o : Opts) (tznames : List Token) (tzi : TzInfos) (ho : PlainOpts o tzi) (t dflt : DT) (ht : t.Valid) (hdv : dflt.Valid) (hy : 100 ≤ t.y) (off : Off) (hoff : off.Dom),
       parse cls (Info.default false yf year century) o tznames tzi dflt (renderMon (.rfc2822 t.weekday.toNat) t off) =
         .ok { dt := MonFmt.expect (.rfc2822 t.weekday.toNat) t dflt, tz := (if o.ignoretz then .naive else offDescr tznames off), tokens := none })
-  else if id = "ctime" then
-    (∀ (cls : Char → CClass) [AsciiOK cls] (yf : Bool) (year century : Int) (o : Opts) (tznames : List Token) (tzi : TzInfos) (ho : PlainOpts o tzi) (t dflt : DT) (ht : t.Valid) (hdv : dflt.Valid) (hy : 100 ≤ t.y),
-      parse cls (Info.default false yf year century) o tznames tzi dflt (renderMon (.ctime t.weekday.toNat) t .naive) =
-        .ok { dt := MonFmt.expect (.ctime t.weekday.toNat) t dflt, tz := .naive, tokens := none })
   else if id = "d_Mon_Y" then
     (∀ (cls : Char → CClass) [AsciiOK cls] (yf : Bool) (year century : Int) (o : Opts) (tznames : List Token) (tzi : TzInfos) (ho : PlainOpts o tzi) (t dflt : DT) (ht : t.Valid) (hdv : dflt.Valid) (hy : 100 ≤ t.y),
       parse cls (Info.default false yf year century) o tznames tzi dflt (renderMon .dMonY t .naive) =
@@ -1030,14 +1045,14 @@ theorem proved_templates_have_theorems : ∀ p ∈ provedTemplates, TemplateThm 
     simp only [TemplateThm]
     exact fun cls _ yf year century o tznames tzi ho t dflt ht hdv off hoff hsp =>
       parse_hmsFrac cls yf year century o tznames tzi ho dflt hdv t ht true 6 (by decide) off hoff hsp
+  · show TemplateThm "ctime"
+    simp only [TemplateThm]
+    exact fun cls _ yf year century o tznames tzi ho t dflt ht hdv hy off hoff hsp =>
+      parse_ctimeOff cls yf year century o tznames tzi ho dflt hdv t ht t.weekday.toNat (weekday_lt7 t) hy off hoff hsp
   · show TemplateThm "rfc2822"
     simp only [TemplateThm]
     exact fun cls _ yf year century o tznames tzi ho t dflt ht hdv hy off hoff =>
       parse_mon cls yf year century o tznames tzi ho dflt hdv t ht (.rfc2822 t.weekday.toNat) (by first | exact hy | exact ⟨weekday_lt7 t, hy⟩) off hoff
-  · show TemplateThm "ctime"
-    simp only [TemplateThm]
-    exact fun cls _ yf year century o tznames tzi ho t dflt ht hdv hy =>
-      parse_mon cls yf year century o tznames tzi ho dflt hdv t ht (.ctime t.weekday.toNat) (by first | exact hy | exact ⟨weekday_lt7 t, hy⟩) .naive trivial
   · show TemplateThm "d_Mon_Y"
     simp only [TemplateThm]
     exact fun cls _ yf year century o tznames tzi ho t dflt ht hdv hy =>
